@@ -68,6 +68,7 @@ type rig struct {
 	peers []*neutrino.ServerPeer
 	conn  []bool
 	seen  []int32 // getheaders of node k already answered
+	wrong []int   // peers a handler disconnected although every header they serve was valid at that moment
 }
 
 func newRig(t *tr.W, w *netsim.World) (*rig, error) {
@@ -255,6 +256,23 @@ func (r *rig) settle() {
 			r.bm.Headers(r.peers[k], hs)
 			r.ev(fmt.Sprintf("headers %d %d", k+1, len(hs)))
 			progressed = true
+			// a handler that disconnects the sender produces that peer's done event
+			for i := 0; i < 20 && r.peers[k].Connected(); i++ {
+				if !neutrino.VerifPeerDisconnected(r.peers[k]) {
+					break
+				}
+				time.Sleep(time.Millisecond)
+			}
+			if neutrino.VerifPeerDisconnected(r.peers[k]) {
+				r.t.Hit("handler.disconnected.sender")
+				if r.servesValidNow(k + 1) {
+					r.wrong = append(r.wrong, k+1)
+				}
+				r.conn[k] = false
+				r.bm.DonePeer(r.peers[k])
+				r.quiet()
+				r.ev(fmt.Sprintf("donepeer %d", k+1))
+			}
 		}
 		if !progressed {
 			return
@@ -313,9 +331,22 @@ func (r *rig) inv(k int) {
 	r.settle()
 }
 
+// servesValidNow: every block of the chain node k serves is a valid block whose timestamp is acceptable at the
+// block manager's present (injected) time
+func (r *rig) servesValidNow(k int) bool {
+	limit := r.clk.AdjustedTime().Add(2 * time.Hour)
+	for b := r.nodes[k-1].Tip(); b != nil && b.Height > 0; b = b.Parent {
+		if !b.Valid || b.Msg.Header.Timestamp.After(limit) {
+			return false
+		}
+	}
+	return true
+}
+
 func (r *rig) final() {
 	honest := r.w.Honest()
-	r.t.Op("final", fmt.Sprintf("%s honest %d:%s ahead %s asked %s", r.state(), honest.Height, honest.ID, list(r.ahead()), list(r.asked())))
+	r.t.Op("final", fmt.Sprintf("%s honest %d:%s ahead %s asked %s dropped-valid %s", r.state(), honest.Height, honest.ID,
+		list(r.ahead()), list(r.asked()), list(r.wrong)))
 }
 
 func ageName(old bool) string {
@@ -394,7 +425,51 @@ func scenShorterSyncPeer(t *tr.W, rng *rand.Rand, fork bool, old bool) {
 	r.final()
 }
 
+// scenFutureHeader: the last block of the honest chain is stamped a little more than two hours ahead of the
+// (injected) clock: the peer that serves it now is refused and dropped.  An hour later the same header is valid;
+// the honest peer that connects then must be followed to the honest tip - and must not be dropped.
+func scenFutureHeader(t *tr.W, rng *rand.Rand, alone bool) {
+	l := 20 + rng.Intn(20)
+	w := netsim.NewWorld(rng)
+	tip := w.Extend(w.Genesis, l-1, "t")
+	tip = w.ExtendAt(tip, "t", time.Now().Add(2*time.Hour+5*time.Minute))
+	w.SetHonest(tip)
+	name := "future-header-then-time-passes"
+	if alone {
+		name += "-own-batch"
+	}
+	t.Case("c04s %s len %d", name, l)
+	r, err := newRig(t, w)
+	if err != nil {
+		t.Op("setup", "err "+err.Error())
+		return
+	}
+	defer r.close()
+	var a int
+	if alone {
+		// the first peer has not seen the future block yet: the client gets everything below it first
+		a0 := r.add(netsim.Behaviour{Kind: "lagging"}, tip.Parent)
+		if !r.connect(a0) {
+			return
+		}
+	}
+	a = r.add(netsim.Behaviour{Kind: "honest"}, nil)
+	b := r.add(netsim.Behaviour{Kind: "honest"}, nil)
+	if !r.connect(a) {
+		return
+	}
+	r.clk.advance(time.Hour)
+	r.ev("clock +1h")
+	if !r.connect(b) {
+		return
+	}
+	r.inv(b)
+	r.final()
+}
+
 func runCurrent(t *tr.W, rng *rand.Rand) {
+	scenFutureHeader(t, rng, false)
+	scenFutureHeader(t, rng, true)
 	for _, old := range []bool{false, true} {
 		scenSyncPeerLeaves(t, rng, old)
 		scenShorterSyncPeer(t, rng, false, old)
